@@ -91,6 +91,10 @@ func Run(r *core.Run) {
 		return
 	}
 	r.Set("rule", "C09: history edits a config file, changes a resolution, or rebuilds >= 2 times")
+	if r.Replay != "" {
+		replayFile(r)
+		return
+	}
 	r.Assume("file modification times advance normally (every edit stamps the edited file with a later mtime); Cache.backdate.cfg shows FsHitImpliesSameContent fails without it")
 	r.Assume("project tree of harness/props/c09/tree.go (11 editable paths, 10 fixed files); option sets bundle, minify, sourcemap+metafile, splitting (format esm)")
 	r.Assume("diagnostic order among fresh builds of one tree is C08's subject: a step whose fresh builds disagree among themselves is excluded (counted as flaky)")
@@ -200,32 +204,64 @@ func Run(r *core.Run) {
 		cnt.histories, cnt.steps, cnt.changedSteps, cnt.diverged, cnt.missed, cnt.candStale, cnt.candStaleRepro, cnt.candMissed, cnt.candMissedRepro, cnt.overChanged, cnt.underChanged, cnt.flaky)
 }
 
-// designChecks: TLC on the design (must hold) and on the transcription of the
-// code (violations there are candidates, not verdicts)
+// designChecks: TLC on the repaired design (its properties must hold) and, in
+// the thorough tier, the stand-alone configurations of the transcription of
+// the code (violations there are candidates, not verdicts).  The candidates
+// of the quick tier come from the generator run (Cand* reporters).
 func designChecks(r *core.Run) {
-	w := 3
-	hold := []string{"Cache.design1.cfg", "Cache.design2q.cfg", "Cache.code-holds1.cfg"}
+	big := "Cache.design2q.cfg"
+	hold := []string{"Cache.design1.cfg"}
+	var cand []string
 	if r.Thorough() {
-		hold = []string{"Cache.design1.cfg", "Cache.design2.cfg", "Cache.code-holds.cfg"}
+		big = "Cache.design2.cfg"
+		hold = []string{"Cache.design1.cfg", "Cache.code-holds.cfg"}
+		cand = []string{"Cache.code-ast.cfg", "Cache.code-rebuild.cfg", "Cache.code-ep.cfg", "Cache.code-watch.cfg", "Cache.code-obs.cfg", "Cache.backdate.cfg"}
 	}
-	for _, c := range hold {
-		tlcrun.MustHold(r, tlcrun.Options{Module: "Cache", Config: c, Workers: w, TimeoutSec: r.Pick(600, 1500)})
-	}
+	var wg sync.WaitGroup
+	sem := make(chan struct{}, 2)
+	var mu sync.Mutex
 	cands := map[string]string{}
-	for _, c := range []string{"Cache.code-ast.cfg", "Cache.code-rebuild.cfg", "Cache.code-ep.cfg", "Cache.code-watch.cfg", "Cache.code-obs.cfg", "Cache.backdate.cfg"} {
-		res, err := tlcrun.Run(r, tlcrun.Options{Module: "Cache", Config: c, Workers: w, TimeoutSec: r.Pick(600, 1200)})
-		if err != nil {
-			r.Infra("%v", err)
-			continue
-		}
-		v := res.Violated
-		if v == "" {
-			v = "holds"
-		}
-		cands[strings.TrimSuffix(strings.TrimPrefix(c, "Cache."), ".cfg")] = v
-		r.Logf("TLC Cache/%s: %s (%d distinct states, %.1fs)", c, v, res.Distinct, res.Wall.Seconds())
+	wg.Add(1)
+	go func() {
+		defer wg.Done()
+		tlcrun.MustHold(r, tlcrun.Options{Module: "Cache", Config: big, Workers: 2, TimeoutSec: r.Pick(1800, 3600)})
+	}()
+	for _, c := range hold {
+		c := c
+		wg.Add(1)
+		go func() {
+			defer wg.Done()
+			sem <- struct{}{}
+			defer func() { <-sem }()
+			tlcrun.MustHold(r, tlcrun.Options{Module: "Cache", Config: c, Workers: 1, TimeoutSec: r.Pick(1800, 3600)})
+		}()
 	}
-	r.Set("model_candidates", cands)
+	for _, c := range cand {
+		c := c
+		wg.Add(1)
+		go func() {
+			defer wg.Done()
+			sem <- struct{}{}
+			defer func() { <-sem }()
+			res, err := tlcrun.Run(r, tlcrun.Options{Module: "Cache", Config: c, Workers: 1, TimeoutSec: 1800})
+			if err != nil {
+				r.Infra("%v", err)
+				return
+			}
+			v := res.Violated
+			if v == "" {
+				v = "holds"
+			}
+			mu.Lock()
+			cands[strings.TrimSuffix(strings.TrimPrefix(c, "Cache."), ".cfg")] = v
+			mu.Unlock()
+			r.Logf("TLC Cache/%s: %s (%d distinct states, %.1fs)", c, v, res.Distinct, res.Wall.Seconds())
+		}()
+	}
+	wg.Wait()
+	if len(cands) > 0 {
+		r.Set("model_candidate_configs", cands)
+	}
 }
 
 // generate runs the generator configuration and collects the exported histories
@@ -253,10 +289,24 @@ func generate(r *core.Run) []Case {
 	var mu sync.Mutex
 	var cases []Case
 	seen := map[string]bool{}
-	res, err := tlcrun.Run(r, tlcrun.Options{Module: "Cache", Config: cfgName, Workers: 5, TimeoutSec: r.Pick(900, 2400),
+	candHist := map[string]map[string]bool{} // property -> histories on which the model violates it
+	res, err := tlcrun.Run(r, tlcrun.Options{Module: "Cache", Config: cfgName, Workers: 4, TimeoutSec: r.Pick(1800, 5400),
 		Files: map[string]string{cfgName: cfg},
 		OnCase: func(raw []byte) {
 			var c Case
+			var cd struct {
+				Cand  string `json:"cand"`
+				Edits []Edit `json:"edits"`
+			}
+			if json.Unmarshal(raw, &cd) == nil && cd.Cand != "" {
+				mu.Lock()
+				if candHist[cd.Cand] == nil {
+					candHist[cd.Cand] = map[string]bool{}
+				}
+				candHist[cd.Cand][Case{Edits: cd.Edits}.String()] = true
+				mu.Unlock()
+				return
+			}
 			if err := json.Unmarshal(raw, &c); err != nil {
 				r.Infra("bad CASE record: %v", err)
 				return
@@ -278,8 +328,21 @@ func generate(r *core.Run) []Case {
 		return cases
 	}
 	if res.Violated != "" {
-		r.Infra("generator config violates %s", res.Violated)
+		r.Infra("the transcription of the code violates %s on the model, which must hold (FsHitImpliesSameContent / WatchStateWellFormed / TypeOK)", res.Violated)
 	}
+	// candidates: properties that the transcription of the code violates on the model
+	mc := map[string]interface{}{}
+	for prop, hs := range candHist {
+		ex := ""
+		for h := range hs {
+			if ex == "" || len(h) < len(ex) || (len(h) == len(ex) && h < ex) {
+				ex = h
+			}
+		}
+		mc[prop] = map[string]interface{}{"histories": len(hs), "shortest": ex}
+		r.Logf("model candidate: %s violated by the transcription of the code on %d histories, e.g. [%s]", prop, len(hs), ex)
+	}
+	r.Set("model_candidates", mc)
 	r.Logf("TLC Cache/%s: %d generated, %d distinct, %d cases, %.1fs", cfgName, res.Generated, res.Distinct, res.Cases, res.Wall.Seconds())
 	sort.Slice(cases, func(i, j int) bool { return cases[i].String() < cases[j].String() })
 	return cases
@@ -468,4 +531,41 @@ func probeFile(r *core.Run, f string) {
 		r.Case(line, true)
 	}
 	r.Set("rule", "probe")
+}
+
+// replayFile re-runs the single history of a replay file (bin/check C09 --replay <path>)
+func replayFile(r *core.Run) {
+	data, err := os.ReadFile(r.Replay)
+	if err != nil {
+		r.Infra("%v", err)
+		return
+	}
+	var rf struct {
+		Key    map[string]interface{} `json:"key"`
+		Detail struct {
+			Edits  []Edit       `json:"edits"`
+			Expect []StepExpect `json:"expect"`
+		} `json:"detail"`
+	}
+	if err := json.Unmarshal(data, &rf); err != nil || len(rf.Detail.Edits) == 0 {
+		r.Infra("replay file %s has no edit history (%v)", r.Replay, err)
+		return
+	}
+	c := Case{Edits: rf.Detail.Edits, Expect: rf.Detail.Expect}
+	for len(c.Expect) < len(c.Edits) {
+		c.Expect = append(c.Expect, StepExpect{})
+	}
+	name, _ := rf.Key["optset"].(string)
+	regime, _ := rf.Key["regime"].(string)
+	var cnt counters
+	for _, os_ := range optSets {
+		if os_.Name == name || name == "" {
+			out := replayCase(filepath.Join(r.Scratch, "replay-"+os_.Name), c.Edits, os_, regime != "fresh", true, nil)
+			for _, st := range out.Steps {
+				b, _ := json.Marshal(st)
+				r.Logf("%s", string(b))
+			}
+			judge(r, &cnt, c, os_.Name, regime != "fresh", out)
+		}
+	}
 }
